@@ -178,8 +178,10 @@ def wrap (k : Kind) (v : Int) : Int :=
   let r := v % m
   if k.signed && decide (r ≥ (2 : Int) ^ (k.bits - 1)) then r - m else r
 
-/-- `IsEnum[T, TV](v)`: `for _, x := range Values() { if x == T(v) { return true } }` -/
-def isEnum (k : Kind) (vals : List Int) (v : Int) : Bool := vals.any (fun x => x == wrap k v)
+/-- `IsEnum[T, TV](value)`, `value` of the integer type TV (kind `kV`):
+    `for _, v := range Values() { if v == T(value) && TV(v) == value { return true } }` -/
+def isEnum (kT kV : Kind) (vals : List Int) (value : Int) : Bool :=
+  vals.any (fun v => v == wrap kT value && wrap kV v == value)
 
 /-! ## codec methods -/
 
